@@ -4,7 +4,7 @@
 From Coq Require Extraction.
 From Coq Require Import ExtrOcamlBasic.
 From Utp Require Import Base.Prelude Wire.SeqNr Rtt.Rtte.
-From Utp Require Import Rx.Rx.
+From Utp Require Import Rx.Rx Tx.Segments.
 
 Extraction Language OCaml.
 Extraction "model"
@@ -12,4 +12,5 @@ Extraction "model"
   seq_nr_offset seq_sub seq_cmp WRAP_TOLERANCE c09_obs_ok
   rtte_default rtte_trace rtte_cfg_ok c16_ok
   RTTE_MIN_RTO RTTE_MAX_RTO CLOCK_GRANULARITY RTTE_INITIAL_RTT
-  rx_build rx_trace rx_run c04_ok.
+  rx_build rx_trace rx_run c04_ok
+  segments_new seg_trace seg_run.
